@@ -115,9 +115,9 @@ let xobserve (r : xrepo) (oc : outcome) =
 
 let flags_of s =
   let b i = Stdlib.String.length s > i && s.[i] = '1' in
-  { fixed_P7 = b 0; fixed_P8 = b 1; fixed_mv_absent = b 2; fixed_P45 = b 3; fixed_P47 = b 4 }
+  { fixed_P7 = b 0; fixed_P8 = b 1; fixed_mv_absent = b 2; fixed_P45 = b 3; fixed_P47 = b 4; fixed_P3 = b 5 }
 
-(* repo <algo> <method> <tob> <flags: five characters 0/1 = fixed_P7 fixed_P8 fixed_mv_absent fixed_P45 fixed_P47> | item ; item ; ...
+(* repo <algo> <method> <tob> <flags: up to six characters 0/1 = fixed_P7 fixed_P8 fixed_mv_absent fixed_P45 fixed_P47 fixed_P3; a missing character is 0> | item ; item ; ...
    additional items:  copy [as=<method>] [f] [nr] [no] -- <srchex> <dsthex>
                       move [as=<method>] [nr] -- <srchex> <dsthex>
                       remove [v=cur|all|any|only:<normhex>+...] [f] -- <targethex>...      (_ = the empty content)
